@@ -2,6 +2,7 @@
 //! It replays TLC-generated cases into the real code and records what the code did as ndjson traces that
 //! TLC then validates against the specifications. It never judges a property itself.
 mod cal;
+mod fx;
 mod named;
 mod util;
 
@@ -18,6 +19,7 @@ fn main() {
     match args[0].as_str() {
         "cal" => cal::main(&args[1..]),
         "named" => named::main(&args[1..]),
+        "fx" => fx::main(&args[1..]),
         other => {
             eprintln!("unknown engine {}", other);
             std::process::exit(2);
